@@ -91,6 +91,7 @@ def run(ctx):
                     'derived cross-variant order, so every row (or none) passes')
     mask_rule(ctx, prog)
     bound_compare_rule(ctx, prog)
+    folded_filter_rule(ctx, prog)
 
 
 def mask_rule(ctx, prog):
@@ -213,3 +214,36 @@ def bound_compares(prog, n_sw):
                 continue
             hit = [a for a in c.args if a['k'] != 'const' and set(payload) & origin_locals(b, a['pl']['l'], depth=10)]
             yield b, c, hit
+
+
+def folded_filter_rule(ctx, prog):
+    """C13-R6: a scan filter that the optimizer folded to a constant is still enforced"""
+    R6 = 'C13-R6'
+    ctx.rule(R6, 'the executor builder turns a scan\'s filter expression into a KeyRange by re-analysing it; the optimizer may have '
+                 'extracted a constant for it (`a > 5 and a < 3` is in one e-class with `false`), which has no range. So the Scan arm '
+                 'must look at the filter node itself: `self.node(filter)` is matched against Constant and its value is inspected, '
+                 'and the table scan is not built on the branch where the constant selects nothing')
+    b = prog.body(BUILD)
+    if not ctx.anchor(R6, BUILD, b is not None):
+        return
+    ctx.functions_analysed.add(b.name)
+    # the filter child: local assigned from (enode as Scan).0[2]
+    filt = [st['lhs']['l'] for _, st in b.stmts() if st['s'] == 'assign' and st['rv'].get('rv') == 'use' and st['rv']['op']['k'] != 'const'
+            and 'as:Scan' in st['rv']['op']['pl']['p'] and '[2]' in st['rv']['op']['pl']['p']]
+    if not ctx.anchor(R6, 'Builder: filter child of Scan', filt):
+        return
+    nodes = [c for c in b.calls if (c.fn or '').endswith('Builder::<S>::node') and len(c.args) > 1 and c.args[1]['k'] != 'const'
+             and set(filt) & origin_locals(b, c.args[1]['pl']['l'], depth=4)]
+    inspected = False
+    for c in nodes:
+        # a switch on the DataValue inside (node as Constant)
+        for i, bl in enumerate(b.blocks):
+            t = bl['term']
+            if t['k'] == 'switch' and t.get('adt') == 'types::value::DataValue' and t.get('on') and 'as:Constant' in t['on']['p'] \
+                    and c.dest['l'] in origin_locals(b, t['on']['l'], depth=4):
+                inspected = True
+    ctx.ob(R6, 'Builder·Scan·constant-filter-inspected', inspected,
+           f'self.node(filter) calls in the Scan arm: {len(nodes)}; Constant value inspected: {inspected}',
+           [site(b, c.bb) for c in nodes] or [b.loc],
+           what='the Scan arm derives the storage filter only from the range analysis of the filter expression: a condition folded to '
+                '`false` has no range and the whole table is returned (`select a from t where a > 5 and a < 3` on a primary key)')
